@@ -17,7 +17,7 @@
                must EQUAL the reference scan (K against the reference model). *)
 From Coq Require Import List NArith ZArith Bool Arith.
 From YV Require Import Gen.PatConsts Pat.Syntax Pat.Sem Pat.Matcher Pat.Modifiers Pat.MatchList.
-From YV Require Export Pat.Base64.
+From YV Require Export Pat.Base64 Pat.Atoms Pat.Pipeline.
 Import ListNotations.
 Local Open Scope N_scope.
 
@@ -203,7 +203,85 @@ Inductive case :=
    (the sequence is in the replay file).  The model is total: no operation
    sequence makes it fail (search_index_le, matches_in_range_spec), so this
    is always a disagreement and a violation. *)
-| MLPanicCase (nops : nat).
+| MLPanicCase (nops : nat)
+(* stream (d): a pattern of the literal family with the REAL sub-patterns and
+   atoms of the compiled rules (hook Rules::verif_c01_dump), the buffer and the
+   reported matches.  anchored: the condition only asks for `$a at N`, so the
+   pattern may be searched at that offset only (no completeness promised). *)
+| PipeCase (p : pat) (sps : list subpat) (atoms : list atom) (anchored : bool)
+           (d : bytes) (reported : list triple).
+
+(* ---- stream (d) ------------------------------------------------------- *)
+Definition flags_eqb (a b : spflags) : bool :=
+  Bool.eqb (f_wide a) (f_wide b) && Bool.eqb (f_nocase a) (f_nocase b) &&
+  Bool.eqb (f_fwl a) (f_fwl b) && Bool.eqb (f_fwr a) (f_fwr b).
+Definition opt_nat_eqb (a b : option nat) : bool :=
+  match a, b with Some x, Some y => Nat.eqb x y | None, None => true | _, _ => false end.
+Definition kind_eqb (a b : spkind) : bool :=
+  match a, b with
+  | KLiteral l1 _, KLiteral l2 _ => bytes_eqb l1 l2          (* the anchor comes from the condition *)
+  | KMasked l1 m1, KMasked l2 m2 => bytes_eqb l1 l2 && bytes_eqb m1 m2
+  | KXor l1, KXor l2 => bytes_eqb l1 l2
+  | KBase64 l1 p1 a1 w1, KBase64 l2 p2 a2 w2 =>
+      bytes_eqb l1 l2 && Nat.eqb p1 p2 && bytes_eqb a1 a2 && Bool.eqb w1 w2
+  | KOther, KOther => true
+  | _, _ => false
+  end.
+Definition sp_eqb (a b : subpat) : bool := kind_eqb (sp_kind a) (sp_kind b) && flags_eqb (sp_flags a) (sp_flags b).
+
+(* the sub-patterns the compiler is expected to produce: c_literal_pattern for
+   text patterns; for hex patterns a run of plain bytes is one Literal and a run
+   of plain / nibble-masked / ?? bytes one LiteralWithMask; None: no claim *)
+Fixpoint hex_items (r : re) : option (list (N * N)) :=
+  match r with
+  | RCls (CByte b) => Some [(b, 255)]
+  | RCls (CMask v m) => Some [(v, m)]
+  | RCls CAny => Some [(0, 0)]
+  | RCat a b => match hex_items a, hex_items b with Some x, Some y => Some (x ++ y) | _, _ => None end
+  | _ => None
+  end.
+Definition expected_sps (p : pat) : option (list subpat) :=
+  match p with
+  | PText text m => Some (compile_text text m)
+  | PHex r =>
+      match hex_items r with
+      | Some items =>
+          let fl := mkF false false false false in
+          if forallb (fun x => snd x =? 255) items then Some [mkSP (KLiteral (map fst items) None) fl]
+          else Some [mkSP (KMasked (map fst items) (map snd items)) fl]
+      | None => None
+      end
+  | PRegexp _ _ => None
+  end.
+Definition xr_of (p : pat) : N * N := match p with PText _ m => xor_range_of m | _ => (0, 0) end.
+
+Definition atoms_of (atoms : list atom) (i : nat) : list atom := filter (fun a => Nat.eqb (a_sp a) i) atoms.
+
+Definition all_atoms_ok (p : pat) (sps : list subpat) (atoms : list atom) : bool :=
+  forallb (fun i => match nth_error sps i with
+                    | Some sp => atoms_ok sp (xr_of p) (atoms_of atoms i)
+                    | None => false
+                    end) (seq 0 (length sps)) &&
+  forallb (fun a => Nat.ltb (a_sp a) (length sps)) atoms.
+
+Definition nat_triple (m : mtch) : triple := (m_start m, m_end m - m_start m, m_key m).
+
+(* every (start, len, key) some verification yields, whatever the order *)
+Definition pipe_candidates (sps : list subpat) (atoms : list atom) (d : bytes) : list triple :=
+  map (fun r => nat_triple (mtch_of r))
+      (flat_map (fun sp => opt_list (verify_anchored sp d)) sps ++
+       flat_map (fun h => opt_list (handle_hit sps atoms d h)) (all_hits atoms d)).
+
+Definition pipe_check (p : pat) (sps : list subpat) (atoms : list atom) (d : bytes) (rep : list triple) : bool :=
+  (match expected_sps p with Some e => list_eqb sp_eqb sps e | None => true end) &&
+  all_atoms_ok p sps atoms &&
+  let ml := map nat_triple (scan_pipeline sps atoms (all_hits atoms d) d) in
+  let cands := pipe_candidates sps atoms d in
+  let ambiguous := existsb (fun c => existsb (fun c' => (t_start c =? t_start c') && negb (triple_eqb c c')) cands) cands in
+  if ambiguous then
+    list_eqb N.eqb (map t_start rep) (map t_start ml) &&
+    forallb (fun t => existsb (triple_eqb t) cands) rep
+  else list_eqb triple_eqb rep ml.
 
 Fixpoint run_list (l : match_list) (adds : list (N * N * option N * bool)) : match_list * list bool :=
   match adds with
@@ -228,6 +306,7 @@ Definition check_case (c : case) : bool :=
       list_eqb res_eqb rs1 pre_res && list_eqb res_eqb rs3 post_res &&
       list_eqb dump_eqb (model_dump p3 npids) dump
   | MLPanicCase _ => false
+  | PipeCase p sps atoms _ d rep => pipe_check p sps atoms d rep
   | ScanCase p d mm panicked rep =>
       negb panicked &&
       (if limit_reached mm rep then
@@ -252,6 +331,9 @@ Definition spec_case (c : case) : bool :=
   | PMBigCase _ _ _ _ _ _ _ dump => forallb (fun e => ascending_b (map t_start (snd (fst e)))) dump
   | ScanCase p d mm panicked rep => negb panicked && scan_spec p d mm rep
   | MLPanicCase _ => false
+  | PipeCase p _ _ anchored d rep =>
+      if anchored then sound_b p d (ref_scan p d) rep && ascending_b (map t_start rep)
+      else scan_spec p d None rep
   end.
 
 (* which part of the specification fails on a scan case (bit mask; used only to
